@@ -328,8 +328,12 @@ func (em *emitter) emitAssignmentOperation(addr address, rh ast.Expression) {
 
 	// Emit the code that evaluates the right side of the assignment.
 	// TODO: use k?
-	b := em.fb.newRegister(typ.Kind())
-	em.emitExprR(rh, typ, b)
+	rhTyp := typ
+	if addr.operator == ast.AssignmentLeftShift || addr.operator == ast.AssignmentRightShift {
+		rhTyp = em.typ(rh) // the count of a shift has its own type
+	}
+	b := em.fb.newRegister(rhTyp.Kind())
+	em.emitExprR(rh, rhTyp, b)
 
 	// Emit the code that computes the result of the operation; such result will
 	// be put back into the left side.
